@@ -64,6 +64,58 @@ SUMMARIES = {
     "gene.codon.Codon.__new__": codon_new,
 }
 LOOPS = {}
-EXTERNALS = {"Bio.Seq.Seq": bio_seq}
+# ---- regular expressions: the real ``re`` module is used on CONCRETE strings (trusted library) -------------------
+import re as _re
+import string as _string
+
+
+class _Pat:
+    def __init__(self, pattern, flags):
+        self.pattern, self.flags = pattern, flags
+        self.rx = _re.compile(pattern, flags)
+
+
+def _re_compile(interp, args, kwargs):
+    from pyvc.values import Opaque
+    pat = args[0]
+    flags = args[1] if len(args) > 1 else kwargs.get("flags", 0)
+    if not isinstance(pat, str) or not isinstance(flags, int):
+        raise Unsupported("re.compile on symbolic arguments")
+    interp.trusted_used.add("re (python regular expressions on concrete strings)")
+    return Opaque("re.Pattern", attrs={"$pat": _Pat(pat, int(flags)), "pattern": pat})
+
+
+def _re_apply(kind):
+    def f(interp, args, kwargs):
+        pat, s = args[0], interp.resolve(args[1])
+        if not isinstance(s, str):
+            raise Unsupported(f"re.{kind} on a symbolic string")
+        rx = pat.attrs["$pat"].rx if hasattr(pat, "attrs") else _re.compile(pat, *(args[2:3]))
+        m = getattr(rx, kind)(s)
+        interp.trusted_used.add("re (python regular expressions on concrete strings)")
+        if m is None:
+            return None
+        from pyvc.values import Opaque
+        return Opaque("re.Match", attrs={"$m": m}, methods={"group": lambda interp2, *a: m.group(*a)})
+    return f
+
+
+class DDict(dict):
+    """collections.defaultdict with an interpreter-level factory."""
+    factory = None
+
+
+def _defaultdict(interp, args, kwargs):
+    d = DDict()
+    d.factory = args[0] if args else None
+    return d
+
+
+EXTERNALS = {"Bio.Seq.Seq": bio_seq, "re.compile": _re_compile, "re.match": _re_apply("match"),
+             "re.search": _re_apply("search"), "re.fullmatch": _re_apply("fullmatch"),
+             "collections.defaultdict": _defaultdict}
+EXTERNAL_CONSTS = {"string.punctuation": _string.punctuation, "re.IGNORECASE": int(_re.IGNORECASE),
+                   "re.I": int(_re.IGNORECASE)}
 DEFAULT = ["parent.make_parent", "location.location_impl.EmptyLocation", "gene.codon.Codon.__new__"]
-LIB = {"default": DEFAULT, "summaries": SUMMARIES, "loops": LOOPS, "attr_hooks": {}, "externals": EXTERNALS}
+LIB = {"default": DEFAULT, "summaries": SUMMARIES, "loops": LOOPS, "attr_hooks": {}, "externals": EXTERNALS,
+       "external_consts": EXTERNAL_CONSTS}
